@@ -461,7 +461,9 @@ func lexInsideAction(l *lexer) stateFn {
 		if l.next() == '&' {
 			l.emit(itemAnd)
 		} else {
+			// a single '&' is no token; left in the pending text it would prefix the next item
 			l.backup()
+			return l.errorf("unrecognized character in action: %#U", r)
 		}
 	case r == '<':
 		if l.next() == '=' {
